@@ -9,11 +9,11 @@ import re
 from oracle import model as M
 from oracle import tsref
 
-UUID_RE = re.compile(r"^[0-9a-fA-F]{8}-[0-9a-fA-F]{4}-([0-9a-fA-F])[0-9a-fA-F]{3}-([0-9a-fA-F])[0-9a-fA-F]{3}-[0-9a-fA-F]{12}$")
-SELECTOR_SYNTAX = re.compile(r"^[A-Za-z0-9_-]+(\.(\[\d+\]|[A-Za-z0-9_-]+))*$")
-B64_RE = re.compile(r"^(?:[A-Za-z0-9+/]{4})*(?:[A-Za-z0-9+/]{2}==|[A-Za-z0-9+/]{3}=)?$")
-HEX_RE = re.compile(r"^([a-fA-F0-9]{2})+$")
-DICT_KEY_RE = re.compile(r"^[a-zA-Z0-9_-]+$")
+UUID_RE = re.compile(r"^[0-9a-fA-F]{8}-[0-9a-fA-F]{4}-([0-9a-fA-F])[0-9a-fA-F]{3}-([0-9a-fA-F])[0-9a-fA-F]{3}-[0-9a-fA-F]{12}\Z")
+SELECTOR_SYNTAX = re.compile(r"^[A-Za-z0-9_-]+(\.(\[\d+\]|[A-Za-z0-9_-]+))*\Z")
+B64_RE = re.compile(r"^(?:[A-Za-z0-9+/]{4})*(?:[A-Za-z0-9+/]{2}==|[A-Za-z0-9+/]{3}=)?\Z")
+HEX_RE = re.compile(r"^([a-fA-F0-9]{2})+\Z")
+DICT_KEY_RE = re.compile(r"^[a-zA-Z0-9_-]+\Z")
 SOCKET_PREFIXES = ("SO_", "ICMP_", "ICMP6_", "IP_", "IPV6_", "MCAST_", "TCP_", "IRLMP_")
 
 
@@ -26,7 +26,7 @@ def id_problem(value, ver, prefix=None):
     t, u = value.split("--", 1)
     if prefix is not None and t != prefix:
         return "prefix %r is not %r" % (t, prefix)
-    if not re.match(r"^[a-z0-9-]+$", t or "!"):
+    if not re.match(r"^[a-z0-9-]+\Z", t or "!"):
         return "bad type part %r" % t
     m = UUID_RE.match(u)
     if not m:
@@ -49,7 +49,7 @@ def resolve_selector(doc, sel):
     """True if selector addresses an existing property / element / key of doc."""
     cur = doc
     for comp in sel.split("."):
-        m = re.match(r"^\[(\d+)\]$", comp)
+        m = re.match(r"^\[(\d+)\]\Z", comp)
         if m:
             i = int(m.group(1))
             if not isinstance(cur, list) or i >= len(cur):
@@ -205,7 +205,7 @@ class V(object):
                         self.bad("hash-key", path + "." + key, "%r is not in the %s hash vocabulary" % (key, ver))
                     if not isinstance(x, str) or not x:
                         self.bad("hash-value", path + "." + key, "hash value %r" % (x,))
-                    elif key in self.m.hash_shapes and not re.match(self.m.hash_shapes[key], x):
+                    elif key in self.m.hash_shapes and not (re.match(self.m.hash_shapes[key], x) and not x.endswith("\n")):
                         self.bad("hash-value", path + "." + key, "%r is not a %s value" % (x, key))
         elif k == "hex":
             if not isinstance(val, str) or not HEX_RE.match(val):
